@@ -41,6 +41,9 @@ func NewStack(name string) *Stack {
 		}
 		o := afero.NewOsFs()
 		return &Stack{Name: name, Fs: &rootedFs{o, dir, false}, Base: o, Root: dir, Cleanup: func() { os.RemoveAll(dir) }}
+	case "short": // an in-memory file system whose files hand data out in short, irregular pieces (as io.Reader allows)
+		m := afero.NewMemMapFs()
+		return &Stack{Name: name, Fs: &shortFs{m}, Base: m, Cleanup: func() {}}
 	case "osraw": // the OS file system with names handed on as spelled (the kernel resolves "x/../y" through x)
 		dir, err := os.MkdirTemp("", "verif-osraw-")
 		if err != nil {
@@ -107,4 +110,40 @@ func (r *rootedFs) Chmod(name string, m os.FileMode) error { return r.Fs.Chmod(r
 func (r *rootedFs) Chown(name string, u, g int) error      { return r.Fs.Chown(r.p(name), u, g) }
 func (r *rootedFs) Chtimes(name string, a, m time.Time) error {
 	return r.Fs.Chtimes(r.p(name), a, m)
+}
+
+// shortFs: Read on its files returns fewer bytes than asked for, in a fixed irregular rhythm, before the end of
+// the file is reached — legal for an io.Reader, and what compressed or remote files do.
+type shortFs struct{ afero.Fs }
+
+type shortFile struct {
+	afero.File
+	k int
+}
+
+var shortSteps = []int{1, 7, 2, 13, 3, 64, 5, 1000, 4, 31}
+
+func (f *shortFile) Read(b []byte) (int, error) {
+	n := shortSteps[f.k%len(shortSteps)]
+	f.k++
+	if n > len(b) {
+		n = len(b)
+	}
+	return f.File.Read(b[:n])
+}
+
+func (s *shortFs) Open(name string) (afero.File, error) {
+	f, err := s.Fs.Open(name)
+	if err != nil {
+		return nil, err
+	}
+	return &shortFile{File: f}, nil
+}
+
+func (s *shortFs) OpenFile(name string, flag int, perm os.FileMode) (afero.File, error) {
+	f, err := s.Fs.OpenFile(name, flag, perm)
+	if err != nil {
+		return nil, err
+	}
+	return &shortFile{File: f}, nil
 }
